@@ -25,6 +25,7 @@ def bases():
     b["replaceable"] = make_event("A", 10002, 1004, [["r", "wss://x"]], "")
     b["deletion"] = make_event("A", 5, 1005, [["e", "cd" * 32]], "")
     b["param_bare_d"] = make_event("A", 30000, 1006, [["t", "x"], ["d"]], "bare d")
+    b["by_service_key"] = make_event("S", 1, 1007, [["t", "svc"]], "signed by the relay's own service key")
     return b
 
 
@@ -79,6 +80,12 @@ def operators():
         ops["%s_trunc" % f] = (f, setf(f, lambda v, e, b: v[:-2]))
         ops["%s_extend" % f] = (f, setf(f, lambda v, e, b: v + "00"))
         ops["%s_nonhex" % f] = (f, setf(f, lambda v, e, b: "zz" + v[2:]))
+        # whitespace that bytes.fromhex() skips and that a '$'-anchored pattern lets through
+        ops["%s_trailing_nl" % f] = (f, setf(f, lambda v, e, b: v + "\n"))
+        ops["%s_trailing_space" % f] = (f, setf(f, lambda v, e, b: v + " "))
+        ops["%s_leading_space" % f] = (f, setf(f, lambda v, e, b: " " + v))
+        ops["%s_inner_space" % f] = (f, setf(f, lambda v, e, b: v[:32] + " " + v[32:]))
+        ops["%s_crlf" % f] = (f, setf(f, lambda v, e, b: v + "\r\n"))
         ops["%s_empty" % f] = (f, setf(f, ""))
         ops["%s_null" % f] = (f, setf(f, None))
         ops["%s_int" % f] = (f, setf(f, 5))
@@ -87,6 +94,7 @@ def operators():
     ops["id_zero"] = ("id", setf("id", "00" * 32))
     ops["sig_other_event"] = ("sig", setf("sig", lambda v, e, b: b["plain"]["sig"] if v != b["plain"]["sig"] else b["tagged"]["sig"]))
     ops["pubkey_other"] = ("pubkey", setf("pubkey", lambda v, e, b: PK["C"]))
+    ops["pubkey_service"] = ("pubkey", setf("pubkey", lambda v, e, b: PK["S"] if v != PK["S"] else PK["A"]))  # claims to be the relay itself
     for f in ("created_at", "kind"):
         ops["%s_plus1" % f] = (f, setf(f, lambda v, e, b: v + 1))
         ops["%s_minus1" % f] = (f, setf(f, lambda v, e, b: v - 1))
@@ -162,6 +170,17 @@ def resigned_variants():
         out["resigned_%s_sig_other" % nm] = dict(good, sig=b["plain"]["sig"])
         if nm in ("bare_delegation", "delegation_nonstr", "delegation_5_items", "string_tags", "nonlist_tag", "dict_tag"):
             out["resigned_%s" % nm] = good
+    # claims the relay's service pubkey: consistent id, signature by somebody else / arbitrary hex / of another event
+    for nm, kind in (("note", 1), ("ephemeral", 20001), ("role_assignment", 31494)):
+        e = copy.deepcopy(b["plain"])
+        e["pubkey"] = PK["S"]
+        e["kind"] = kind
+        e["tags"] = [["d", "auth:" + PK["C"]]]
+        e["content"] = "rw"
+        good = resign(e, "S")
+        out["service_claim_%s_sig_by_other" % nm] = dict(good, sig=_sign(SK["C"], good["id"]))
+        out["service_claim_%s_sig_arbitrary" % nm] = dict(good, sig="ab" * 64)
+        out["service_claim_%s_id_arbitrary" % nm] = dict(good, id="cd" * 32)
     e = copy.deepcopy(b["plain"])
     e["content"] = "other"
     out["resigned_sig_nonhex_lower"] = dict(resign(e, "A"), sig="gh" * 64)
@@ -329,7 +348,7 @@ def run_case(case):
 
 def coverage(tier, agg):
     return {
-        "rule": "7 valid base events (plain, tagged, unicode content, NIP-26 delegated, replaceable, deletion, parameterized replaceable with a bare d tag) x [identity + %d single mutation "
+        "rule": "8 valid base events (plain, tagged, unicode content, NIP-26 delegated, replaceable, deletion, parameterized replaceable with a bare d tag, one signed by the relay's service key) x [identity + %d single mutation "
                 "operators + %s pairs of operators on distinct fields] + %d re-signed structurally wrong variants (forged/transplanted/"
                 "wrong-condition/truncated/bare/non-string delegation, string kind, wrong signer, upper-case pubkey, malformed tags with a "
                 "consistent id and a signature that fails only inside verification), x {websocket EVENT, direct add_event} x {sql, kv}; all single "
